@@ -521,7 +521,7 @@ func newRoutingPolicyFromApiStruct(arg *api.SetPoliciesRequest) (*oc.RoutingPoli
 func api2Path(resource api.TableType, path *api.Path, isWithdraw bool) (*table.Path, error) {
 	var pi *table.PeerInfo
 	var nlri bgp.NLRI
-	var nexthop netip.Addr
+	var nexthop, linkLocalNexthop netip.Addr
 
 	if path.SourceAsn != 0 {
 		id, err := netip.ParseAddr(path.SourceId)
@@ -567,6 +567,7 @@ func api2Path(resource api.TableType, path *api.Path, isWithdraw bool) (*table.P
 				return nil, fmt.Errorf("invalid mp reach attribute")
 			}
 			nexthop = a.Nexthop
+			linkLocalNexthop = a.LinkLocalNexthop
 		default:
 			pattrs = append(pattrs, attr)
 		}
@@ -580,7 +581,7 @@ func api2Path(resource api.TableType, path *api.Path, isWithdraw bool) (*table.P
 		pa, _ := bgp.NewPathAttributeNextHop(nexthop)
 		pattrs = append(pattrs, pa)
 	} else {
-		attr, _ := bgp.NewPathAttributeMpReachNLRI(rf, []bgp.PathNLRI{{NLRI: nlri}}, nexthop)
+		attr, _ := bgp.NewPathAttributeMpReachNLRI(rf, []bgp.PathNLRI{{NLRI: nlri}}, nexthop, linkLocalNexthop)
 		pattrs = append(pattrs, attr)
 	}
 
